@@ -3,7 +3,7 @@
    apply_component_change), mirrors src/lib_priv.rs. *)
 From stdpp Require Import gmap list.
 From Coq Require Import NArith.
-From BS Require Import Sync.Types Sync.Model Sync.Proofs.Skin.
+From BS Require Import Sync.Types Sync.Model Sync.Observe Sync.Proofs.Skin Sync.Proofs.Tracker.
 Local Open Scope N_scope.
 
 (* For any two peers A (sender) and B (receiver), whatever their local entity-id spaces, any
@@ -47,7 +47,42 @@ Theorem C16_unsynchronised_joint_dropped :
     end.
 Proof. exact skin_unknown_joint_dropped. Qed.
 
+(* The snapshot path: a peer B that HOLDS a skin it received (joints = its own replicas) announces it
+   again to a later joiner C. B names exactly the uuids it received, in the same order, and C ends
+   with its replicas of A's joints - provided B's tracker is consistent in the direction
+   uuid_to_entity -> entity_to_uuid (tracker_ok). *)
+Theorem C16_reannounced_skin_names_the_same_joints :
+  forall (A B C : peer_state) (joints : list ent) (ps : list N) (u : ent -> uuid) (repB repC : ent -> ent),
+    Forall (fun j => t_e2u A !! j = Some (u j)) joints ->
+    tracker_ok B ->
+    Forall (fun j => t_u2e B !! (u j) = Some (repB j)) joints ->
+    Forall (fun j => t_u2e C !! (u j) = Some (repC j)) joints ->
+    to_skinned_mapper A joints ps = VMapper (u <$> joints) ps /\
+    to_skinned_mesh B (u <$> joints) ps = VSkin (repB <$> joints) ps /\
+    to_skinned_mapper B (repB <$> joints) ps = VMapper (u <$> joints) ps /\
+    to_skinned_mesh C (u <$> joints) ps = VSkin (repC <$> joints) ps.
+Proof. exact skin_via_snapshot. Qed.
+
+(* ... and that consistency holds in EVERY reachable state of EVERY peer of the frame-level model, for all
+   system orders, oracles and interleavings, as long as the application puts SyncMark on entities of its
+   own only (never on a network replica): an invariant proved by induction over frames and operations *)
+Theorem C16_tracker_consistent_on_every_run :
+  forall n tr, marks_script_only n tr ->
+    forall p pr, grun (init_global n) tr !! p = Some pr -> tracker_ok pr.
+Proof. exact grun_tracker_ok. Qed.
+
+(* the premise is needed: an application that marks a replica makes entity_created_on_* register the same
+   entity under a second uuid; the first uuid keeps pointing at it while entity_to_uuid is overwritten
+   (the Added<SyncMark> queries have no Without<SyncEntity> filter). Outside the property: C01 quantifies
+   over spawn / despawn operations *)
+Theorem C16_marking_a_replica_breaks_the_tracker :
+  exists n tr p pr, Hierarchy.hier_conforming n tr /\ grun (init_global n) tr !! p = Some pr /\ ~ tracker_ok pr.
+Proof. exact tracker_ok_refuted. Qed.
+
 Print Assumptions C16_joints_translated.
 Print Assumptions C16_same_joint_count.
 Print Assumptions C16_received_mapper_installed.
 Print Assumptions C16_unsynchronised_joint_dropped.
+Print Assumptions C16_reannounced_skin_names_the_same_joints.
+Print Assumptions C16_tracker_consistent_on_every_run.
+Print Assumptions C16_marking_a_replica_breaks_the_tracker.
